@@ -184,6 +184,7 @@ def minute_drive(ctx, corr):
 
     class Ev(object):
         bar_dict = None
+    state = {"changed": False}
 
     def init(context):
         env = Environment.get_instance()
@@ -213,8 +214,15 @@ def minute_drive(ctx, corr):
                 env.update_time(dt0, dt0)
                 stub.now = dt0
                 del fired[:]
-                sched.next_day_(None)
-                sched.before_trading_(None)
+                from rqalpha.core.events import EVENT, Event
+                if day == S["cal"][2]:
+                    # the universe changes before the third day (subscribe / update_universe): the sessions are re-read from the instruments; the day's start
+                    # minute becomes the minute BEFORE the first session opens, so that a rule at the first bar (09:31) still fires
+                    sched._universe_change(Event(EVENT.POST_UNIVERSE_CHANGED, universe=[S["stocks"][0]["id"]]))
+                    state["changed"] = True
+                # the events as the executor publishes them (listeners may read their clocks)
+                sched.next_day_(Event(EVENT.PRE_BEFORE_TRADING, calendar_dt=dt0, trading_dt=dt0))
+                sched.before_trading_(Event(EVENT.BEFORE_TRADING, calendar_dt=dt0, trading_dt=dt0))
                 bt = set(i for i, _ in fired)
                 del fired[:]
                 for m in bars:
@@ -223,7 +231,10 @@ def minute_drive(ctx, corr):
                 per = {}
                 for i, now in fired:
                     per.setdefault(i, []).append(now.hour * 60 + now.minute)
-                log.append((day, bars, bt, per, sched._start_minute, sorted(sched._trading_minute_range)))
+                # specification of the day's start minute: 0 until the universe changed, then one minute before the stock session opens (09:31 - 1)
+                log.append((day, bars, bt, per, 570 if state["changed"] else 0, sorted(sched._trading_minute_range)))
+                if sched._start_minute != (570 if state["changed"] else 0):
+                    state["start_minute_seen"] = sched._start_minute
         finally:
             sched._registry[:] = []
             env.update_time(None, None)
@@ -259,6 +270,64 @@ def minute_drive(ctx, corr):
         ok = (t[0] == "1") == bt and [int(x) for x in t[1:]] == got
         corr.add(ok, {"time_rule": tr, "day": str(day), "n_bars": len(bars), "impl": [bt, got], "model": rep})
     ctx.stats["minute_rule_days"] += len(meta)
+
+
+def night_drive(ctx):
+    """a night session: the events of trading day d are published on the EVENING BEFORE (calendar date = the previous trading day, trading date = d).
+    Day rules denote TRADING days: weekday / n-th trading day of the week or month are read off the trading date."""
+    from rqalpha.environment import Environment
+    from rqalpha.core.events import EVENT, Event
+    from rqalpha.mod.rqalpha_mod_sys_scheduler.scheduler import Scheduler
+    rnd = random.Random(ctx.rnd.random())
+    S = B.gen_market(rnd, ndays=rnd.randrange(18, 30), warm=0, n_stocks=1, with_future=False, opts={"kinds": ["CS"], "p_delist": 0, "p_split": 0, "p_div": 0})
+    out = []
+
+    def init(context):
+        env = Environment.get_instance()
+        sched = Scheduler("1m")
+
+        class Stub(object):
+            now = None
+        stub = Stub()
+        sched._ucontext = stub
+        rules = ["W%d" % k for k in (1, 2, 5)] + ["N%d" % k for k in (1, 2, -1)] + ["M%d" % k for k in (1, 3, -1, -2)]
+        fired = []
+        for r in rules:
+            f = (lambda r: (lambda c, b: fired.append(r)))(r)
+            if r[0] == "W":
+                sched.run_weekly(f, weekday=int(r[1:]), time_rule="before_trading")
+            elif r[0] == "N":
+                sched.run_weekly(f, tradingday=int(r[1:]), time_rule="before_trading")
+            else:
+                sched.run_monthly(f, tradingday=int(r[1:]), time_rule="before_trading")
+        try:
+            cal = S["cal"]
+            for i in range(1, len(cal)):
+                d = cal[i]
+                cdt = datetime.datetime.combine(cal[i - 1], datetime.time(20, 55))
+                tdt = datetime.datetime.combine(d, datetime.time(20, 55))
+                env.update_time(cdt, tdt)
+                stub.now = cdt
+                del fired[:]
+                sched.next_day_(Event(EVENT.PRE_BEFORE_TRADING, calendar_dt=cdt, trading_dt=tdt))
+                sched.before_trading_(Event(EVENT.BEFORE_TRADING, calendar_dt=cdt, trading_dt=tdt))
+                out.append((d, sorted(fired), rules))
+        finally:
+            sched._registry[:] = []
+            env.update_time(None, None)
+    res, exc = runner.run_real(S, dict(accounts={"stock": 1e6}), {"init": init})
+    if exc is not None:
+        raise RuntimeError("night drive failed: %r" % (exc,))
+    cal = S["cal"]
+    for d, got, rules in out:
+        for r in rules:
+            ctx.evaluations += 1
+            want = spec_day_rule(cal, d, r)
+            if (r in got) != want:
+                ctx.witness("C17.days", {"kind": "night_session_day_rule", "rule": r[0]}, "night session of trading day %s (events published on the evening before): %s %s, the calendar says %s"
+                            % (d, rule_label(r), "fired" if r in got else "did not fire", "fires" if want else "does not fire"), {"rule": r, "day": str(d)})
+                return
+    ctx.stats["night_session_days"] += len(out)
 
 
 def direct(ctx, c_bucket, c_civil, c_time):
@@ -401,6 +470,8 @@ def run(ctx):
         mixed_run(ctx, c_uni)
     for _ in range(ctx.n(2, 40)):
         minute_drive(ctx, c_min)
+    for _ in range(ctx.n(2, 30)):
+        night_drive(ctx)
     for _ in range(ctx.n(2, 30)):
         direct(ctx, c_bucket, c_civil, c_time)
 
